@@ -1139,4 +1139,9 @@ PARTS = [
     Part("build", oracle_build, strategy=build_cases, quick=(4, 320), thorough=(8, 4000)),
     Part("locate", oracle_locate, strategy=locate_cases, quick=(8, 2000), thorough=(16, 15000)),
     Part("edge", oracle_edge, enum=enum_edge, quick=(1, None), thorough=(1, None)),
+    # coverage-guided (atheris / libFuzzer) tier over the same strategies and oracles
+    Part("fuzz_locate", oracle_locate, strategy=locate_cases, quick=(2, 3000), thorough=(4, 100000),
+         fuzz=dict(modules=["pyyeti.locate"], time=25, time_thorough=300), tmax_thorough=400),
+    Part("fuzz_dofpv", oracle_dofpv, strategy=dof_cases, quick=(1, 600), thorough=(4, 20000),
+         fuzz=dict(modules=["pyyeti.nastran.n2p"], time=25, time_thorough=300), tmax_thorough=400),
 ]
